@@ -118,9 +118,13 @@ pub fn gen_scenario(rng: &mut Rng, prop: &str) -> Scenario {
             cfg.keys = gen_keys(rng, &names);
         }
     }
+    if prop == "c03" && rng.chance(1, 2) {
+        // header and question echo must also hold on the TSIG paths
+        cfg.keys = gen_keys(rng, &names);
+    }
     let catalog = Arc::new(built.catalog.clone());
     let server = make_server(catalog, &cfg);
-    let bufs = Buffers::new(cfg.payload);
+    let bufs = Buffers::roomy(cfg.payload, rng);
     Scenario { built, server, cfg, bufs, names, classes }
 }
 
@@ -138,6 +142,37 @@ fn now_unix() -> u64 {
 
 /// Builds one request for the property's workload. Returns the octets
 /// and a label describing how it was made.
+/// 0/1/2 OPT records anywhere in the message, with arbitrary TTL octets
+/// (extended RCODE, version, flags), owners, payload sizes and options.
+fn shape_opts(rng: &mut Rng, sc: &Scenario, spec: &mut MsgSpec) {
+        // 0/1/2 OPTs anywhere, arbitrary TTL octets, owners, payloads
+        spec.additionals.retain(|r| r.rtype != T_OPT);
+        let n_opt = *rng.pick(&[0usize, 1, 1, 1, 1, 2]);
+        for _ in 0..n_opt {
+            let ext = *rng.pick(&[0u8, 0, 0, 1, 0x7f, 0x80, 0xff]);
+            let version = if rng.chance(1, 2) { 0 } else { rng.u8() };
+            let mut o = opt_record(if rng.bool() { rng.u16() } else { *rng.pick(&PAYLOADS) }, ext, version, rng.u16() & 0x8001, Vec::new());
+            if rng.chance(1, 6) {
+                o.owner = NameEnc::Plain(rng.pick(&sc.names).clone());
+            }
+            if rng.chance(1, 6) {
+                // options
+                let mut f = |r: &mut Rng| r.pick(&sc.names).clone();
+                let rd = rr::gen_valid(rng, C_IN, T_OPT, &mut f);
+                let rd = if rng.chance(1, 3) { rr::mutate(rng, &rd) } else { rd };
+                o.rdata = vec![RdPart::Bytes(rd)];
+            }
+            match rng.below(10) {
+                0 => spec.answers.push(o),
+                1 => spec.authorities.push(o),
+                _ => {
+                    let at = rng.below(spec.additionals.len() + 1);
+                    spec.additionals.insert(at, o);
+                }
+            }
+        }
+    }
+
 fn gen_request(rng: &mut Rng, sc: &Scenario, prop: &str) -> (Vec<u8>, &'static str) {
     let edns = match prop {
         "c09" => (3, 4),
@@ -178,6 +213,10 @@ fn gen_request(rng: &mut Rng, sc: &Scenario, prop: &str) -> (Vec<u8>, &'static s
             if rng.chance(1, 12) {
                 spec.questions.clear();
             }
+            if rng.chance(1, 5) {
+                // OPT problems (duplicates, owners, placement) compete with BADVERS
+                shape_opts(rng, sc, &mut spec);
+            }
         }
         "c07" => {
             if rng.chance(1, 3) {
@@ -188,34 +227,7 @@ fn gen_request(rng: &mut Rng, sc: &Scenario, prop: &str) -> (Vec<u8>, &'static s
                 }
             }
         }
-        "c09" => {
-            // 0/1/2 OPTs anywhere, arbitrary TTL octets, owners, payloads
-            spec.additionals.retain(|r| r.rtype != T_OPT);
-            let n_opt = *rng.pick(&[0usize, 1, 1, 1, 1, 2]);
-            for _ in 0..n_opt {
-                let ext = *rng.pick(&[0u8, 0, 0, 1, 0x7f, 0x80, 0xff]);
-                let version = if rng.chance(1, 2) { 0 } else { rng.u8() };
-                let mut o = opt_record(if rng.bool() { rng.u16() } else { *rng.pick(&PAYLOADS) }, ext, version, rng.u16() & 0x8001, Vec::new());
-                if rng.chance(1, 6) {
-                    o.owner = NameEnc::Plain(rng.pick(&sc.names).clone());
-                }
-                if rng.chance(1, 6) {
-                    // options
-                    let mut f = |r: &mut Rng| r.pick(&sc.names).clone();
-                    let rd = rr::gen_valid(rng, C_IN, T_OPT, &mut f);
-                    let rd = if rng.chance(1, 3) { rr::mutate(rng, &rd) } else { rd };
-                    o.rdata = vec![RdPart::Bytes(rd)];
-                }
-                match rng.below(10) {
-                    0 => spec.answers.push(o),
-                    1 => spec.authorities.push(o),
-                    _ => {
-                        let at = rng.below(spec.additionals.len() + 1);
-                        spec.additionals.insert(at, o);
-                    }
-                }
-            }
-        }
+        "c09" => shape_opts(rng, sc, &mut spec),
         _ => {}
     }
     // harmless extra records
@@ -255,6 +267,8 @@ fn gen_request(rng: &mut Rng, sc: &Scenario, prop: &str) -> (Vec<u8>, &'static s
                 o.alg_name_override = Some(n);
             }
             5 => o.key_name_override = Some(RName::simple("unknown-key.")),
+            // a valid signature made before a forwarder rewrote the header ID
+            6 => o.original_id = Some(rng.u16()),
             _ => {}
         }
         let (signed, _, _) = sign_request(&base, &key, &o);
@@ -656,7 +670,7 @@ fn tsig_size_sweep(rep: &mut Report, rng: &mut Rng) {
     let key = Key { name: name_of_wire_len(rng, key_len), alg: if rng.bool() { Alg::Sha1 } else { Alg::Sha256 }, secret: rng.bytes(32) };
     let cfg = ServerCfg { payload: *rng.pick(&[512u16, 600, 1232]), rrl: None, keys: vec![key.clone()] };
     let server = make_server(Arc::new(QCatalog::new()), &cfg);
-    let mut bufs = Buffers::new(cfg.payload);
+    let mut bufs = Buffers::roomy(cfg.payload, rng);
     let now = now_unix();
     for variant in 0..5 {
         for edns in [None, Some(512u16), Some(cfg.payload)] {
